@@ -172,6 +172,9 @@ fn run_typed<A: Attr>(c: &FragCase) -> Result<Vec<FragObs>, String> {
             let y = sl.y;
             let x0 = sl.xs.start;
             for (i, f) in sl.fragments().enumerate() {
+                if out.len() > 1 << 22 {
+                    panic!("runaway rasterisation: more than 2^22 fragments for one triangle");
+                }
                 out.push(FragObs { y, x: x0 + i, pos: f.pos.0, comps: f.var.comps() });
             }
         });
